@@ -404,7 +404,7 @@ def load_known():
 def shrink(prop, lines, exes, sig, budget=60):
     """delta-debug a scenario while the monitor keeps reporting the same signature (impl only)"""
     def fails(ls):
-        r = runlib.run_one(ls, {"ndebug": exes["ndebug"]}, want_model=False, timeout=60)
+        r = runlib.run_one(ls, {"ndebug": exes["ndebug"]}, want_model=False, timeout=25 if "hang" in sig else 60)
         rc, out, err = r.impl["ndebug"]
         if runlib.crash_info(rc, err):
             return sig.startswith("C09")
